@@ -213,7 +213,9 @@ def check(cfg, res):
                     v = ("ramp-up-delay", f"{ctx}: first request at {issues[0]}, ramp-up delay is {delay}")
                 elif sum(1 for x in issues if x >= D - TOL) > 1:
                     v = ("issued-after-period", f"{ctx}: requests issued at {issues} but warm-up+time period ends at {D}")
-                elif any(x >= D - TOL for x in ends[:-1]):
+                elif any(x >= D + TOL or (delay == 0.0 and x >= D) for x in ends[:-1]):
+                    # (a completion one ulp *before* the end of the period legitimately allows one more request: exact comparison where
+                    # the client's clock starts at 0, tolerance in the lenient direction otherwise)
                     v = ("continues-after-period", f"{ctx}: request completions {ends}, period ends at {D}")
                 elif ends[-1] < D - TOL:
                     v = ("stops-before-period", f"{ctx}: last request completed at {ends[-1]} < {D}")
